@@ -80,8 +80,10 @@ def c09(ctx: Ctx):
     else:
         # D (drift guard): the models of the pinned code must still deviate from the contract
         ctx.tlc("MC_C09", "MC_C09_pinned.cfg", expect_violation=True, label="D pinned models deviate (expected)")
-        runs = [("MC_C09_quick.cfg", "exhaustive core", None)] if tier == "quick" else [
+        runs = [("MC_C09_quick.cfg", "exhaustive core", None),
+                ("MC_C09_quick_srv.cfg", "server lists / server variables (1-template core + slice)", None)] if tier == "quick" else [
             ("MC_C09_thorough.cfg", "exhaustive core", None),
+            ("MC_C09_thorough_srv.cfg", "server lists / server variables (design check on all, sliced emission)", None),
             ("MC_C09_thorough_t3.cfg", "exhaustive, 3 templates (sliced emission)", None),
             ("MC_C09_thorough_l3.cfg", "exhaustive, 3 segments (sliced emission)", None),
             # -simulate checks (and so emits) every successor it generates, not only the one it follows: 2 walks per
